@@ -1,21 +1,22 @@
 #!/bin/sh
+REPO=${STEEL_REPO:-/repo}; export STEEL_REPO=$REPO
 # Negative controls: every behaviour-preserving change under benign/ must leave every check silent (exit 0).
 # Usage: tools/benign_test.sh [file.diff ...]   (default: benign/*.diff). Not part of quick/thorough.
 cd "$(dirname "$0")/.." || exit 2
-if [ -n "$(git -C /repo status --porcelain --untracked-files=no)" ]; then echo "/repo not clean"; exit 2; fi
+if [ -n "$(git -C $REPO status --porcelain --untracked-files=no)" ]; then echo "$REPO not clean"; exit 2; fi
 files="$*"; [ -z "$files" ] && files=$(ls benign/*.diff)
 props=$(python3 -c "import json;print(' '.join(c['property_id'] for c in json.load(open('MANIFEST.json'))['checks']))")
 fail=0
 for f in $files; do
   case $f in /*) abs=$f ;; *) abs=$PWD/$f ;; esac
-  git -C /repo apply "$abs" || { echo "$f: does not apply"; fail=1; continue; }
+  git -C $REPO apply "$abs" || { echo "$f: does not apply"; fail=1; continue; }
   bad=""
   for p in $props; do
-    ./check $p > /tmp/benign_$p.out 2>&1; rc=$?
-    if [ $rc -ne 0 ]; then bad="$bad $p(exit $rc)"; grep -E "^(VIOLATION|CHECK-ERROR|  rule)" /tmp/benign_$p.out | head -4; fi
+    ./check $p > ${TMPDIR:-/tmp}/benign_$p.out 2>&1; rc=$?
+    if [ $rc -ne 0 ]; then bad="$bad $p(exit $rc)"; grep -E "^(VIOLATION|CHECK-ERROR|  rule)" ${TMPDIR:-/tmp}/benign_$p.out | head -4; fi
   done
-  git -C /repo checkout -- .
-  git -C /repo clean -fdq -- crates >/dev/null 2>&1
+  git -C $REPO checkout -- .
+  git -C $REPO clean -fdq -- crates >/dev/null 2>&1
   if [ -z "$bad" ]; then echo "$(basename $f): silent"; else echo "$(basename $f): ALARM$bad"; fail=1; fi
 done
 exit $fail
